@@ -44,13 +44,13 @@ theorem static_typeMono (T : Ty) : TypeMono (staticType T) :=
 
 /-! ### clause: "its result's type conforms … to the one predicted from the argument values" -/
 
-/-- For every stdlib function (regenerated parameter table), whatever its callbacks do:
-a successful call's result conforms to what `ReturnTypeForValues` answers for the same
-arguments (and that prediction exists). -/
-theorem result_conforms_value_prediction (s : Generated.StdSpec) (_hs : s ∈ Generated.stdlibSpecs)
-    (rf : Option RefineFn) (tf : TypeFn) (impl : ImplFn) (args : List Value) (hT : C10.TypeFnWF tf)
-    (v : Value) (h : (call (toSpec s rf) tf impl args).1 = .ok v) :
-    ∃ t, (returnTypeForValuesPub (toSpec s rf) tf args).1 = .ok t ∧ Ty.conformErrs t v.ty = 0 :=
+/-- For ANY function specification — in particular `toSpec s rf` for every entry `s` of the
+regenerated parameter table — and whatever its callbacks do: a successful call's result conforms
+to what `ReturnTypeForValues` answers for the same arguments (and that prediction exists).
+(The protocol's doing: `C10.nonconforming_never_returned`.) -/
+theorem result_conforms_value_prediction (spec : Spec) (tf : TypeFn) (impl : ImplFn) (args : List Value)
+    (hT : C10.TypeFnWF tf) (v : Value) (h : (call spec tf impl args).1 = .ok v) :
+    ∃ t, (returnTypeForValuesPub spec tf args).1 = .ok t ∧ Ty.conformErrs t v.ty = 0 :=
   C10.nonconforming_never_returned _ tf impl args hT v h
 
 /-! ### clauses: "… conforms to the return type predicted from the argument types alone", and
@@ -74,29 +74,126 @@ theorem type_only_prediction_sound (spec : Spec) (tf : TypeFn) (impl : ImplFn) (
     obtain ⟨t', ht', had⟩ := hm T _ ht0
     exact ⟨t', rtfvPub_of_pass1_ok (pass1_unkOf_ok hp) ht', had _ hc⟩
 
-/-- Unconditional for the statically-typed stdlib functions: for every function of the
-regenerated table whose source says `Type: function.StaticReturnType(T)`, both predictions
-exist for every successful call, are the same type `T`, and the result conforms to it. -/
-theorem static_functions_predictions_agree (s : Generated.StdSpec) (_hs : s ∈ Generated.stdlibSpecs)
-    (T : Ty) (hw : Ty.wf T = true) (rf : Option RefineFn) (impl : ImplFn) (args : List Value) (v : Value)
-    (h : (call (toSpec s rf) (staticType T) impl args).1 = .ok v) :
-    (∃ t, (returnTypeForValuesPub (toSpec s rf) (staticType T) args).1 = .ok t ∧ Ty.conformErrs t v.ty = 0) ∧
-    (∃ t', (returnType (toSpec s rf) (staticType T) (args.map (·.ty))).1 = .ok t' ∧
-      Ty.conformErrs t' v.ty = 0) := by
-  have hT : C10.TypeFnWF (staticType T) := fun _ t ht => by cases ht; exact hw
-  exact ⟨C10.nonconforming_never_returned _ _ impl args hT v h,
-    type_only_prediction_sound _ _ impl args hT (static_typeMono T) v h⟩
+/-! ### the bridge from the regenerated tables to the callbacks
+
+`Generated.stdlibSyntax` says, per exported function, whether its `Type` is
+`function.StaticReturnType(e)` (and prints the Go expression `e`) or a callback.  `staticTy?`
+interprets those expressions; `tfOf` is the `Type` callback the theorems use for a table entry:
+the constant one for a static entry, the C13 model (by name) for a dynamic one, `none` where the
+callback is not modelled.  The theorems below quantify over the TABLE (`∀ sy ∈ stdlibSyntax`), so
+a function added to or changed in cty/function/stdlib changes what they say. -/
+
+/-- the Go type expressions that occur as arguments of `function.StaticReturnType` in
+cty/function/stdlib (`Bytes` is the package's capsule type; its identity is the number the
+harness assigns — the one `Generated.stdlibSpecs` shows for `BytesLenFunc`'s parameter) -/
+def staticTy? : String → Option Ty
+  | "cty.Bool" => some .bool
+  | "cty.Number" => some .number
+  | "cty.String" => some .string
+  | "cty.List(cty.String)" => some (.list .string)
+  | "cty.List(cty.Number)" => some (.list .number)
+  | "Bytes" => some (.capsule 3)
+  | _ => none
+
+/-- every static return type of the regenerated table is recognised (a new expression in the
+source makes this theorem fail: the tie breaks closed) -/
+theorem static_types_recognised :
+    ∀ sy ∈ Generated.stdlibSyntax, ∀ e, sy.staticType = some e → (staticTy? e).isSome = true := by
+  decide
+
+/-- … and `Bytes` is the capsule type of the `bytes*` functions' parameters -/
+theorem bytes_capsule_is_parameter_type :
+    ((Std.find? "BytesLenFunc").bind (·.params.head?)).map (·.ty.equals (.capsule 3)) = some true := by decide
+
+theorem staticTy_wf (e : String) (T : Ty) (h : staticTy? e = some T) : Ty.wf T = true := by
+  unfold staticTy? at h
+  split at h <;> cases h <;> rfl
+
+/-- the name under which the C13 model table (`Stdlib.byName`) has the function -/
+def modelName? : String → Option String
+  | "LengthFunc" => some "length" | "HasIndexFunc" => some "hasindex" | "IndexFunc" => some "index"
+  | "ElementFunc" => some "element" | "CoalesceListFunc" => some "coalescelist" | "CoalesceFunc" => some "coalesce"
+  | "CompactFunc" => some "compact" | "ContainsFunc" => some "contains" | "DistinctFunc" => some "distinct"
+  | "ChunklistFunc" => some "chunklist" | "FlattenFunc" => some "flatten" | "KeysFunc" => some "keys"
+  | "ValuesFunc" => some "values" | "LookupFunc" => some "lookup" | "MergeFunc" => some "merge"
+  | "ReverseListFunc" => some "reverse" | "SliceFunc" => some "slice" | "ZipmapFunc" => some "zipmap"
+  | "SortFunc" => some "sort" | "SetProductFunc" => some "setproduct" | "ConcatFunc" => some "concat"
+  | "RangeFunc" => some "range" | "SetHasElementFunc" => some "sethaselement" | "SetUnionFunc" => some "setunion"
+  | "SetIntersectionFunc" => some "setintersection" | "SetSubtractFunc" => some "setsubtract"
+  | "SetSymmetricDifferenceFunc" => some "setsymmetricdifference"
+  | _ => none
+
+/-- the `Type` callback of a table entry: constant for a static entry, the model for a modelled
+dynamic entry -/
+def tfOf (E : Stdlib.Env) (sy : Generated.StdSyntax) : Option TypeFn :=
+  match sy.staticType with
+  | some e => (staticTy? e).map staticType
+  | none => (modelName? sy.var).bind fun n => (Stdlib.byName n).map (·.tf E)
+
+/-- every statically typed entry has a callback, and it is the constant one of its declared type -/
+theorem tfOf_static (E : Stdlib.Env) (sy : Generated.StdSyntax) (hsy : sy ∈ Generated.stdlibSyntax) (e : String)
+    (he : sy.staticType = some e) : ∃ T, staticTy? e = some T ∧ tfOf E sy = some (staticType T) := by
+  have h := static_types_recognised sy hsy e he
+  cases hT : staticTy? e with
+  | none => rw [hT] at h; cases h
+  | some T => exact ⟨T, rfl, by simp [tfOf, he, hT]⟩
+
+/-- the model table agrees with the syntax table on which functions are static: where the source
+says `StaticReturnType(e)` and C13 models the function, the model's `Type` callback IS that constant -/
+theorem model_static_callbacks_agree (E : Stdlib.Env) :
+    ∀ sy ∈ Generated.stdlibSyntax, ∀ e T n f, sy.staticType = some e → staticTy? e = some T →
+      modelName? sy.var = some n → Stdlib.byName n = some f → f.tf E = staticType T := by
+  intro sy hsy e T n f he hT hn hf
+  simp only [Generated.stdlibSyntax, List.mem_cons, List.mem_nil_iff, or_false] at hsy
+  rcases hsy with h | h | h | h | h | h | h | h | h | h | h | h | h | h | h | h | h | h | h | h | h | h | h | h | h |
+    h | h | h | h | h | h | h | h | h | h | h | h | h | h | h | h | h | h | h | h | h | h | h | h | h | h | h | h | h |
+    h | h | h | h | h | h | h | h | h | h | h | h | h | h | h | h | h | h | h | h | h | h | h | h | h | h <;>
+    subst h <;> simp only [Option.some.injEq, reduceCtorEq] at he <;>
+    first
+    | (simp [modelName?] at hn; done)
+    | (subst he; simp only [staticTy?, Option.some.injEq] at hT; subst hT
+       simp only [modelName?, Option.some.injEq] at hn; subst hn
+       simp only [Stdlib.byName, Option.some.injEq] at hf; subst hf; rfl)
+
+/-- **Every statically-typed stdlib function** (quantified over the regenerated syntax table, with
+its parameter declarations from the regenerated parameter table): for every successful call both
+predictions exist and are the same type — the declared type `T`, or the placeholder when a
+dynamically typed argument short-circuits the call — and the result conforms to it, whatever
+`Impl` does. -/
+theorem static_functions_predictions_agree (sy : Generated.StdSyntax) (hsy : sy ∈ Generated.stdlibSyntax)
+    (s : Generated.StdSpec) (_hs : s ∈ Generated.stdlibSpecs) (_hv : sy.var = s.var)
+    (e : String) (he : sy.staticType = some e) (E : Stdlib.Env)
+    (rf : Option RefineFn) (impl : ImplFn) (args : List Value) (v : Value) :
+    ∃ T tf, staticTy? e = some T ∧ tfOf E sy = some tf ∧
+      ((call (toSpec s rf) tf impl args).1 = .ok v →
+        ∃ t, (t = T ∨ t = .dyn) ∧
+          (returnTypeForValuesPub (toSpec s rf) tf args).1 = .ok t ∧ Ty.conformErrs t v.ty = 0 ∧
+          (returnType (toSpec s rf) tf (args.map (·.ty))).1 = .ok t) := by
+  obtain ⟨T, hT, htf⟩ := tfOf_static E sy hsy e he
+  refine ⟨T, staticType T, hT, htf, fun h => ?_⟩
+  have hw := staticTy_wf e T hT
+  have hTf : C10.TypeFnWF (staticType T) := fun _ t ht => by cases ht; exact hw
+  obtain ⟨t, ht, hc⟩ := C10.nonconforming_never_returned _ _ impl args hTf v h
+  rw [C10.returnType_is_rtfv_of_unknowns, map_unknown_ty]
+  rcases call_ok_pass1 h with hd | ⟨A, t0, hp, ht0⟩
+  · rw [rtfvPub_of_pass1_dyn hd] at ht
+    cases ht
+    exact ⟨.dyn, .inr rfl, rtfvPub_of_pass1_dyn hd, hc, rtfvPub_of_pass1_dyn (pass1_unkOf_dyn hd)⟩
+  · cases ht0
+    rw [rtfvPub_of_pass1_ok hp rfl] at ht
+    cases ht
+    exact ⟨T, .inl rfl, rtfvPub_of_pass1_ok hp rfl, hc, rtfvPub_of_pass1_ok (pass1_unkOf_ok hp) rfl⟩
 
 /-! ### clause: "never a Go panic and never an error reporting an internal panic" — the part
 that is the protocol's doing -/
 
-/-- For every stdlib spec and all callbacks: a Go panic escapes `Call` exactly when the
-declared `RefineResult` refuses the typed result (never because `Type` or `Impl` panicked);
-for the stdlib's `refineNonNull` that is: `Impl` returned null. -/
-theorem go_panic_only_from_refinement (s : Generated.StdSpec) (_hs : s ∈ Generated.stdlibSpecs)
-    (rf : Option RefineFn) (tf : TypeFn) (impl : ImplFn) (args : List Value) :
-    (∃ why, (call (toSpec s rf) tf impl args).1 = .panic why) ↔
-      ∃ r pre, rf = some r ∧ (callUnrefined (toSpec s rf) tf impl args).1 = .ok pre ∧
+/-- For ANY specification (in particular every `toSpec s rf` of the regenerated table) and all
+callbacks: a Go panic escapes `Call` exactly when the declared `RefineResult` refuses the typed
+result (never because `Type` or `Impl` panicked); for the stdlib's `refineNonNull` that is:
+`Impl` returned null.  (`C10.go_panic_iff`; discharged per function by `call_total_<f>` below.) -/
+theorem go_panic_only_from_refinement (spec : Spec) (tf : TypeFn) (impl : ImplFn) (args : List Value) :
+    (∃ why, (call spec tf impl args).1 = .panic why) ↔
+      ∃ r pre, spec.refine = some r ∧ (callUnrefined spec tf impl args).1 = .ok pre ∧
         typed pre = true ∧ r pre.unmark = none :=
   C10.go_panic_iff _ tf impl args
 
@@ -119,14 +216,13 @@ theorem no_panic_error_of_total_callbacks (spec : Spec) (tf : TypeFn) (impl : Im
   | _ => simp
 
 /-- The same for `ReturnTypeForValues` / `ReturnType`: never a Go panic; a `PanicError` only
-if the `Type` callback itself panicked. -/
+if the `Type` callback itself panicked — with that very message. -/
 theorem prediction_never_panics (spec : Spec) (tf : TypeFn) (args : List Value) :
     (∀ why, (returnTypeForValuesPub spec tf args).1 ≠ .panic why) ∧
     (∀ w, (returnTypeForValuesPub spec tf args).1 = .err (.panicError w) →
-      tf (typeArgs spec args) = .panic w ∨ ∃ w', tf (typeArgs spec args) = .panic w') := by
+      tf (typeArgs spec args) = .panic w) := by
   refine ⟨(C10.rtfv_panics_become_errors spec tf args).1, ?_⟩
   intro w h
-  right
   unfold returnTypeForValuesPub returnTypeForValues at h
   cases hp : pass1 spec args with
   | countErr => simp [hp] at h
@@ -147,7 +243,7 @@ theorem prediction_never_panics (spec : Spec) (tf : TypeFn) (args : List Value) 
     cases ht : tf (typeArgs spec args) with
     | ok t => simp [ht] at h
     | err c => simp [ht] at h
-    | panic w' => exact ⟨w', rfl⟩
+    | panic w' => simp [ht] at h; rw [h]
     | unmodelled => simp [ht] at h
 
 /-! ### the regenerated tables say what the theorems assume -/
@@ -347,6 +443,52 @@ theorem typeMono_setop_counterexample :
   Stdlib.typeMono_setOp_counterexample
 
 theorem typeMonoSetOp_false : ¬ TypeMonoSetOp := Stdlib.typeMonoSetOp_false
+
+/-- the functions whose `Type` callback is NOT monotone (recorded findings; `_partial` and
+`_counterexample` theorems above) -/
+def typeMonoExceptions : List String :=
+  ["MergeFunc", "SetUnionFunc", "SetIntersectionFunc", "SetSubtractFunc", "SetSymmetricDifferenceFunc"]
+
+/-- **Table-wide monotonicity.**  For EVERY entry of the regenerated syntax table whose `Type`
+callback the theorems have (`tfOf`: all statically typed functions, and every dynamically typed
+function modelled in C13), except the five recorded exceptions, the callback is monotone — for
+every answer of package convert satisfying `EnvConvertMono` (needed by `lookup` only). -/
+theorem stdlib_type_callbacks_monotone (E : Env) (hE : EnvConvertMono E) :
+    ∀ sy ∈ Generated.stdlibSyntax, ∀ tf, tfOf E sy = some tf → sy.var ∉ typeMonoExceptions → TypeMono tf := by
+  intro sy _ tf htf hex
+  unfold tfOf at htf
+  split at htf
+  · simp only [Option.map_eq_some_iff] at htf
+    obtain ⟨T, _, rfl⟩ := htf
+    exact static_typeMono T
+  · simp only [Option.bind_eq_some_iff, Option.map_eq_some_iff] at htf
+    obtain ⟨n, hn, f, hf, rfl⟩ := htf
+    unfold modelName? at hn
+    split at hn <;> cases hn <;> simp only [byName, Option.some.injEq] at hf <;> subst hf <;>
+      first
+      | exact typeMono_length | exact typeMono_hasindex | exact typeMono_index | exact typeMono_element
+      | exact typeMono_coalescelist | exact typeMono_coalesce E | exact typeMono_compact | exact typeMono_contains
+      | exact typeMono_distinct | exact typeMono_chunklist | exact typeMono_flatten E | exact typeMono_keys
+      | exact typeMono_values | exact typeMono_lookup E hE | exact typeMono_reverse | exact typeMono_slice
+      | exact typeMono_zipmap E | exact typeMono_sort | exact typeMono_setproduct E | exact typeMono_concat E
+      | exact typeMono_range | exact typeMono_sethaselement
+      | (rename_i heq; exact absurd (by simp [typeMonoExceptions, heq]) hex)
+
+/-- **Table-wide: a type checker working with placeholders never contradicts evaluation.**  For
+every entry of the table with a callback (`tfOf`) outside the recorded exceptions, with the
+parameter declarations of the regenerated parameter table: if a call succeeds, `ReturnType` of the
+argument types succeeds and the result conforms to it.  (`hwf`: the callback's answer for THIS
+call is a well-formed type — automatic for static entries.) -/
+theorem stdlib_type_only_prediction_sound (E : Env) (hE : EnvConvertMono E)
+    (sy : Generated.StdSyntax) (hsy : sy ∈ Generated.stdlibSyntax)
+    (s : Generated.StdSpec) (_hs : s ∈ Generated.stdlibSpecs) (_hv : sy.var = s.var)
+    (tf : TypeFn) (htf : tfOf E sy = some tf) (hex : sy.var ∉ typeMonoExceptions)
+    (rf : Option RefineFn) (impl : ImplFn) (args : List Value)
+    (hwf : ∀ t, tf (typeArgs (toSpec s rf) args) = .ok t → Ty.wf t = true)
+    (v : Value) (h : (call (toSpec s rf) tf impl args).1 = .ok v) :
+    ∃ t', (returnType (toSpec s rf) tf (args.map (·.ty))).1 = .ok t' ∧ Ty.conformErrs t' v.ty = 0 :=
+  type_only_prediction_sound_at _ tf impl args hwf
+    (fun t ht => stdlib_type_callbacks_monotone E hE sy hsy tf htf hex _ t ht) v h
 
 end PerFunction
 
